@@ -4,7 +4,7 @@ From Coq Require Import ZArith QArith List Bool String Ascii.
 From Coq Require Import Floats.PrimFloat.
 From PAFCommon Require Import PyFloat PyNum.
 From Coq Require Import Permutation.
-From PAFC07 Require Import Gen Model Proofs1 Proofs2 Proofs3 Proofs4 Proofs5 Proofs6 Proofs7 Refute.
+From PAFC07 Require Import Gen Model Proofs1 Proofs2 Proofs3 Proofs4 Proofs5 Proofs6 Proofs7 Proofs8 Refute.
 Import ListNotations.
 Open Scope string_scope.
 Open Scope list_scope.
@@ -128,3 +128,9 @@ Proof.
 Qed.
 Example set_order_legacy_refuted : ["mass"; "a"; "b"] <> ["b"; "mass"; "a"].
 Proof. discriminate. Qed.
+
+(* histories: a search built with tag "d0" whose paths held "old", then fitted with tags d1, none, d1 *)
+Example history_example :
+  map (tokens ps0) (run_history emcee (mkpaths (Some "old")) [(NFloat 1, Some "d1"); (NFloat 1, None); (NFloat 2, Some "d1")]) =
+  [["Emcee"; "nwalkers"; "30"; "1.0"; "d1"]; ["Emcee"; "nwalkers"; "30"; "1.0"]; ["Emcee"; "nwalkers"; "30"; "2.0"; "d1"]].
+Proof. vm_compute. reflexivity. Qed.
